@@ -254,8 +254,8 @@ def run(R):
     # pre-test and truncation in the Select arm
     ef = PR.desugared(P, R.need_fn(ENG + "execute"))
     es = PR.calls_matching(ef, r"ExecutionEngine::execute_select$")
-    if len(es) != 1:
-        R.violation("C07.pre", "execute|shape", "ExecutionEngine::execute: expected one execute_select call", [ef.loc()])
+    if len(es) < 1:
+        R.violation("C07.pre", "execute|shape", "ExecutionEngine::execute: expected an execute_select call", [ef.loc()])
     else:
         # on every path to execute_select either the limit is absent or `counter < limit` holds (path facts on the body with local
         # predicate helpers inlined)
@@ -263,7 +263,7 @@ def run(R):
                "|".join(re.escape(w.spath) + "$" for w in writers) if writers else r"ExecutionEngine::(execute_select|execute_aggregate)"
         efv = PR.desugared(P, PR.view(P, getattr(ef, "origin_fn", ef), keep=keep))
         fa = PR.facts(efv)
-        ev = [c for c in efv.calls if short(c.name).endswith("ExecutionEngine::execute_select")][0]
+        evs_ = [c for c in efv.calls if short(c.name).endswith("ExecutionEngine::execute_select")]
 
         def no_budget_left_excluded(a, val):
             if a.get("kind") == "discr" and a.get("call") is None and "limit" in place_fields(a["place"]) and val == "None":
@@ -310,15 +310,21 @@ def run(R):
                                         zero = True
                 return rem and zero
             return False
-        pre = fa.ok and fa.every_path(ev.bb, no_budget_left_excluded)
-        e = es[0]
+        pre = fa.ok and all(fa.every_path(ev.bb, no_budget_left_excluded) for ev in evs_)
+
+        def limit_absent(a, val):
+            return a.get("kind") == "discr" and a.get("call") is None and "limit" in place_fields(a["place"]) and val == "None"
+        # (a copy of the call on the path where the statement has no LIMIT needs no truncation)
+        fa0 = PR.facts(ef)
+        es_lim = [c for c in es if not (fa0.ok and fa0.every_path(c.bb, limit_absent))] or es
+        e = es_lim[0]
         if pre:
             R.ok("C07.pre", "execute|pre-test", "every path to execute_select passes `limit is None` or `counter < limit`", e.loc())
         else:
             R.violation("C07.pre", "execute|no-pre-test",
                         "ExecutionEngine::execute runs execute_select without first testing the emitted-row counter against the limit: LIMIT 0 "
                         "(or an exhausted limit) still emits the rows of one more line", [e.loc()])
-        tr = [c for c in PR.calls_matching(ef, r"^alloc::vec::Vec::(truncate|drain)$") if c.bb in ef.reachable_from(e.bb)]
+        tr = [c for c in PR.calls_matching(ef, r"^alloc::vec::Vec::(truncate|drain)$") if all(c.bb in ef.reachable_from(e_.bb) for e_ in es_lim)]
         ulc = [c.bb for c in ef.calls if any(k2 in [w.key for w in writers] for k2 in P.callee_keys(ef, c))]
         # ... or the counting itself, when the function that did it was inlined into execute (renamed / new helper)
         if counter:
@@ -361,7 +367,20 @@ def run(R):
             owner = P.fns[owner.parent_key]
         # a helper that did not exist on the pinned tree belongs to the function(s) it was carved out of
         hops = 0
-        while owner.spath not in PR.pinned_fns() and PR.pinned_fns() and hops < 3:
+        cached_adts = set(adt for (adt, _n) in getattr(P, "cached_fields", {}) or {})
+        if cached_adts and any(st["k"] == "assign" and st["rv"]["k"] == "aggr" and st["rv"].get("adt") in cached_adts for _, st in f.stmts()):
+            R.ok("C07.agg", "limit-reader|" + owner.spath, "copies the statement's LIMIT into the engine once (a cached field, read as the LIMIT)",
+                 owner.loc(), nontrivial=False)
+            continue
+
+        def _alias_read(st):
+            pls = []
+            if isinstance(st, dict) and st.get("k") == "assign":
+                rv = st["rv"]
+                pls = [rv.get("pl")] + [x.get("pl") for x in (rv.get("op"), rv.get("o")) if isinstance(x, dict)]
+            return any(pl and any(isinstance(e, dict) and e.get("n") == "limit" and e.get("adt") in cached_adts for e in pl["p"]) for pl in pls)
+        alias_only = bool(cached_adts) and all(_alias_read(st) for _, st in rd)
+        while (alias_only or owner.spath not in PR.pinned_fns()) and owner.spath != ENG + "execute" and PR.pinned_fns() and hops < 3:
             callers = set()
             for h in P.fns.values():
                 if h.target == owner.target and any(owner.key in P.callee_keys(h, c) for c in h.calls):
